@@ -307,7 +307,11 @@ def _build(tier: str):
             if vt == 'int':
                 o = {'vt': 'int', 'v': g.n(-20, 99)}
             elif vt == 'dec':
-                d = decimal.Decimal(g.n(-9999, 99999)).scaleb(-g.n(0, 3))
+                if g.p(0.25):
+                    # Decimals whose str() is in exponent form: positive exponents, tiny values, normalised round numbers
+                    d = decimal.Decimal(g.pick(['1E+2', '2.5E+3', '-4E+1', '1E-7', '0.00000025', '7E+0', '1.20E+4', '-3E-9']))
+                else:
+                    d = decimal.Decimal(g.n(-9999, 99999)).scaleb(-g.n(0, 3))
                 o = {'vt': 'dec', 'v': str(d)}
             elif vt == 'expr':
                 o = {'vt': 'expr', 'v': L.text_of([g.number_expr(g.n(0, 3))])}
